@@ -739,6 +739,79 @@ Proof.
   - apply R4. subst w2. rewrite install_sys_only by reflexivity. rewrite backup_get, F. reflexivity.
 Qed.
 
+(* ------------------------------------------------------------------------------------ *)
+(* crash points inside backup                                                            *)
+(* ------------------------------------------------------------------------------------ *)
+Lemma backup_crash_no_marker j w :
+  (j <= 2)%nat -> fs_get BakExe (wfs w) = None -> fs_get BakExe (wfs (backup_crash runnable fails j w)) = None.
+Proof.
+  intros J H. unfold backup_crash.
+  destruct j as [|[|[|j]]]; [| | |lia]; cbn [firstn backup_ops run_ops step_op]; fsn; cbn [loc_eqb];
+    repeat match goal with |- context [match ?x with Some _ => _ | None => _ end] => destruct x end; exact H.
+Qed.
+
+Lemma refused_when_no_marker d w1 :
+  fs_get BakExe (wfs w1) = None ->
+  exec runnable fails (Restore d) (exec runnable fails Install w1) = log_tool (Restore d) (exec runnable fails Install w1).
+Proof.
+  intros H. apply restore_without_backup. unfold backup_exists, fs_has.
+  rewrite install_sys_only by reflexivity. rewrite H. reflexivity.
+Qed.
+
+(* backup died before it began to save the executable (after 0, 1 or 2 complete copies, possibly
+   with an arbitrary file at the destination of the copy in flight): after install, restore refuses
+   -- it changes nothing but its own log *)
+Lemma backup_cut_refused j w d :
+  (j <= 2)%nat -> fs_get BakExe (wfs w) = None ->
+  let w1 := backup_crash runnable fails j w in
+  exec runnable fails (Restore d) (exec runnable fails Install w1) = log_tool (Restore d) (exec runnable fails Install w1).
+Proof. intros J H w1. apply refused_when_no_marker. apply backup_crash_no_marker; assumption. Qed.
+
+Lemma backup_cut_inflight_refused j w d l f :
+  (j <= 2)%nat -> fs_get BakExe (wfs w) = None -> l = BakCfg \/ l = BakEbpf ->
+  let w1 := inflight l f (backup_crash runnable fails j w) in
+  exec runnable fails (Restore d) (exec runnable fails Install w1) = log_tool (Restore d) (exec runnable fails Install w1).
+Proof.
+  intros J H L w1. apply refused_when_no_marker. subst w1. unfold inflight. cbn [set_fs wfs].
+  rewrite fs_get_set. destruct L as [-> | ->]; cbn [loc_eqb]; apply backup_crash_no_marker; assumption.
+Qed.
+
+Lemma same_file_refl o : same_file o o = true.
+Proof. destruct o as [[m x]|]; cbn; [|reflexivity]. rewrite N.eqb_refl, sbeq_refl. reflexivity. Qed.
+Lemma same_data_refl f : same_data (Some f) (Some f) = true.
+Proof. cbn. apply sbeq_refl. Qed.
+
+(* every crash state of backup between two copies, from an installed version with no backup yet:
+   outside the known class, restore after install either refuses or reinstates the four files *)
+Lemma backup_cut_outside_class j w d :
+  (j <= 4)%nat -> installed runnable w = true -> no_backup w = true ->
+  let w1 := backup_crash runnable fails j w in
+  KnownClass_C17_backup_cut w w1 = false ->
+  let w2 := exec runnable fails Install w1 in
+  let w3 := exec runnable fails (Restore d) w2 in
+  w3 = log_tool (Restore d) w2 \/
+  ((forall l, In l sys_locs -> fs_get l (wfs w3) = fs_get l (wfs w)) /\
+   ((forall v l, fails v l = false) -> wrunning w3 = true /\ wenabled w3 = true)).
+Proof.
+  intros J I NB w1 K w2 w3.
+  assert (NE : fs_get BakExe (wfs w) = None /\ fs_get BakCfg (wfs w) = None /\
+               fs_get BakEbpf (wfs w) = None /\ fs_get BakUnit (wfs w) = None).
+  { unfold no_backup, bak_locs, fs_has in NB. cbn [forallb] in NB.
+    destruct (fs_get BakExe (wfs w)); [discriminate|]. destruct (fs_get BakCfg (wfs w)); [discriminate|].
+    destruct (fs_get BakEbpf (wfs w)); [discriminate|]. destruct (fs_get BakUnit (wfs w)); [discriminate|]. auto. }
+  destruct NE as [N1 [N2 [N3 N4]]].
+  destruct j as [|[|[|[|[|j]]]]]; [| | | | |lia].
+  - left. apply (backup_cut_refused 0 w d); [lia|exact N1].
+  - left. apply (backup_cut_refused 1 w d); [lia|exact N1].
+  - left. apply (backup_cut_refused 2 w d); [lia|exact N1].
+  - exfalso. destruct (installed_inv w I) as [e [c [b [u [He [Hc [Hb [Hu Hr]]]]]]]].
+    revert K. subst w1. unfold KnownClass_C17_backup_cut, backup_complete, backup_crash, fs_has.
+    cbn [firstn backup_ops run_ops step_op]. fsn. cbn [loc_eqb].
+    rewrite ?He, ?Hc, ?Hb, ?Hu, ?N1, ?N2, ?N3, ?N4. cbn [loc_eqb]. rewrite ?He, ?Hc, ?Hb, ?Hu, ?N1, ?N2, ?N3, ?N4.
+    rewrite !same_data_refl. cbn [same_file andb negb]. rewrite ?andb_false_r. cbn. discriminate.
+  - right. exact (reversible d w I).
+Qed.
+
 (* the same after any history: whatever commands ran before, once a version is installed the
    triple backup; install; restore reinstates it *)
 Lemma reversible_after_history cmds d w :
@@ -894,6 +967,18 @@ Proof.
   repeat split; try (vm_compute; reflexivity).
   intros l [<-|[<-|[<-|[<-|[]]]]]; vm_compute; reflexivity.
 Qed.
+
+(* a backup cut after the executable was saved (before the unit file): the known class, and what
+   restore then does -- the unit file stays the newer one, exit 1, service stopped *)
+Lemma backup_cut_refuted :
+  exists w, installed standin_runnable w = true /\ no_backup w = true /\
+    let w1 := backup_crash standin_runnable never_fails 3 w in
+    KnownClass_C17_backup_cut w w1 = true /\
+    let w3 := exec standin_runnable never_fails (Restore true) (exec standin_runnable never_fails Install w1) in
+    fs_get SysUnit (wfs w3) <> fs_get SysUnit (wfs w) /\ fs_get SysExe (wfs w3) = fs_get SysExe (wfs w) /\
+    wrunning w3 = false /\
+    exit_code standin_runnable never_fails (Restore true) (exec standin_runnable never_fails Install w1) = 1.
+Proof. exists ex_installed. vm_compute. repeat split; try discriminate. Qed.
 
 (* the layout for the setup directory used by the harness, and the tie between the two spellings
    of the unit file name in the sources (linux.rs SERVICE_CONFIG_FILE_NAME vs "{SERVICE_NAME}.service") *)
